@@ -10,5 +10,7 @@ one() {
   echo "$sid exit=$rc violations_lines=$v no_failing_input=$nf"
 }
 if [ "${1:-}" = "--one" ]; then one "$2"; exit 0; fi
-ls /verif/seeded | grep '^C' | xargs -P ${1:-5} -I{} sh "$0" --one {} | sort > /var/tmp/reseed/REGRESSION.txt
+# seeds of ONE property run one after the other (concurrent runs for different repositories would share coq/Gen); properties in parallel
+if [ "${1:-}" = "--prop" ]; then for s in $(ls /verif/seeded | grep "^$2-"); do one $s; done; exit 0; fi
+ls /verif/seeded | grep '^C' | cut -d- -f1 | sort -u | xargs -P ${1:-5} -I{} sh "$0" --prop {} | sort > /var/tmp/reseed/REGRESSION.txt
 cp /var/tmp/reseed/REGRESSION.txt /verif/seeded/REGRESSION.txt
